@@ -443,8 +443,8 @@ def run(ctx):
     ctx.log("proofs %s" % ("checked" if ok else "DO NOT CHECK"))
     if facts is None:
         return
-    npk = 8 if ctx.quick else 96
-    ntests = (10, 18) if ctx.quick else (16, 24)
+    npk = 6 if ctx.quick else 96
+    ntests = (10, 14) if ctx.quick else (16, 24)
     maxlen = 25 if ctx.quick else 40
     base = os.path.join(ctx.work, "pkgs")
     pkgs, dirs = [], []
